@@ -1252,11 +1252,18 @@ class SVG:
         if transform != Affine2D.identity():
             g.attrib["transform"] = transform.tostring()
 
+        # the nested svg's presentation attributes (paint, opacity, display, style)
+        # keep applying to its content; they go on the outermost group
+        presentation = {
+            k: v for k, v in svg.attrib.items() if k in _NESTED_SVG_PRESENTATION_ATTRIB
+        }
+
         # non-root svg elements by default have overflow="hidden" which means a clip path
         # the size of the SVG viewport is applied; if overflow="visible" don't clip
         # https://www.w3.org/TR/SVG/render.html#OverflowAndClipProperties
         overflow = svg.attrib.get("overflow", "hidden")
         if overflow == "visible":
+            g.attrib.update(presentation)
             return (g,)
 
         if overflow != "hidden":
@@ -1268,6 +1275,7 @@ class SVG:
         clip_path.append(to_element(SVGRect(x=x, y=y, width=width, height=height)))
         clipped_g = etree.Element(f"{{{svgns()}}}g")
         clipped_g.attrib["clip-path"] = f"url(#{clip_path.attrib['id']})"
+        clipped_g.attrib.update(presentation)
         clipped_g.append(g)
 
         return (clip_path, clipped_g)
@@ -1703,6 +1711,14 @@ _INHERIT_ATTRIB_HANDLERS = {
 _INHERITABLE_ATTRIB = frozenset(
     k for k, v in _INHERIT_ATTRIB_HANDLERS.items() if v is not _do_not_inherit
 )
+
+# what a nested <svg> hands on to the group that replaces it; its placement
+# attributes (x, y, width, height, viewBox, transform, overflow, ...) are consumed
+_NESTED_SVG_PRESENTATION_ATTRIB = _INHERITABLE_ATTRIB - {
+    "transform",
+    "clip-path",
+    "overflow",
+}
 
 _INHERITABLE_ATTRIB_DEFAULTS = {
     k: (
